@@ -135,3 +135,13 @@ def run(ctx):
     ctx.assumptions += ['key cells of results are compared with the key equality of the statement (a class shows one representative, 1 or 1.0)',
                         'pivot: y values are strings or ints (rendered as decimal labels); the unpivot clause is checked on tables with unique (x, y) and non-None z',
                         'row order of listby/groupby/pivot results is not pinned; unlist must be sorted under the real cmp, stable and contiguous']
+
+
+def replay(ctx, body):
+    c = body['case']
+    if c['op'] == 'listby': o = obs_listby(c['t'], c['by'], 0)
+    elif c['op'] == 'groupby': o = obs_groupby(c['t'], c['by'], 0)
+    else: o = obs_pivot(c['t'], c['x'], c['y'], c['z'], c['agg'], 0)
+    bad = ctx.validate('Trace_Regroup', [o])
+    print('replay:', 'REJECTED %s' % bad if bad else 'accepted')
+    return 1 if bad else 0
